@@ -111,6 +111,25 @@ def _collection(res):
     return {"key_fields": list(res.key_fields), "keys": [[int(v) for v in k] for k in res.keys()], "lists": [canon_il(il) for il in res.lists()]}
 
 
+def params_of(spec):
+    """The parameters of the batch call and the same parameters for the single-query operation.
+    via: 'helper' (batch.recommend / score / predict) or 'runner' (BatchPipelineRunner used directly; always for several invocations);
+    n: the list length as given (None, 0, 1, small, larger than the catalogue, negative); n_given=False: no n at all (runner only);
+    cands: candidate items given as the recommend invocation's `items` input (runner only; the helper has no such parameter)."""
+    import numpy as np
+    ops = ops_of(spec)
+    via = "runner" if len(ops) > 1 else (spec.get("via") or "helper")
+    n = spec.get("n")
+    rkw, skw = {}, {}
+    if via == "helper" or spec.get("n_given", True):
+        rkw["n"] = n
+        skw["n"] = n
+    if via == "runner" and spec.get("cands") is not None:
+        rkw["items"] = ItemList(item_ids=np.array(spec["cands"], dtype=np.int64))
+        skw["items"] = ItemList(item_ids=np.array(spec["cands"], dtype=np.int64))
+    return via, n, rkw, skw
+
+
 def run(spec):
     import numpy as np
     from lenskit import batch
@@ -120,25 +139,32 @@ def run(spec):
     test = test_input(spec)
     ops = ops_of(spec)
     out = {"error": None, "outputs": []}
+    via, n, rkw, skw = params_of(spec)
     try:
-        if len(ops) == 1:
+        if via == "helper":
+            # the module-level convenience functions, with the parameters as given (n by position or by keyword)
             op = ops[0]
             if op == "recommend":
-                res = batch.recommend(pipe, test, spec.get("n"), n_jobs=spec["n_jobs"])
+                if spec.get("n_kw"):
+                    res = batch.recommend(pipe, test, n=n, n_jobs=spec["n_jobs"])
+                else:
+                    res = batch.recommend(pipe, test, n, n_jobs=spec["n_jobs"])
             elif op == "score":
                 res = batch.score(pipe, test, n_jobs=spec["n_jobs"])
             else:
                 res = batch.predict(pipe, test, n_jobs=spec["n_jobs"])
             out["outputs"] = [[ONAME[op], _collection(res)]]
         else:
+            # a BatchPipelineRunner invoked directly: one or several invocations in the given order
             runner = BatchPipelineRunner(n_jobs=spec["n_jobs"])
             for op in ops:
+                okw = {"output": spec["onames"][op]} if (spec.get("onames") or {}).get(op) else {}      # the name the results are filed under
                 if op == "recommend":
-                    runner.recommend(n=spec.get("n"))
+                    runner.recommend(**okw, **rkw)
                 elif op == "score":
-                    runner.score()
+                    runner.score(**okw)
                 else:
-                    runner.predict()
+                    runner.predict(**okw)
             results = runner.run(pipe, test)
             out["outputs"] = [[name, _collection(results.output(name))] for name in results.outputs]
     except BaseException as e:
@@ -154,7 +180,7 @@ def run(spec):
                 q = k[uidx] if uidx is not None else None
                 il = None if items is None else ItemList(item_ids=np.array(items, dtype=np.int64))
                 if op == "recommend":
-                    r = recommend(pipe, q, spec.get("n"))
+                    r = recommend(pipe, q, **skw)          # the same parameters, given to the single-query operation
                 elif op == "score":
                     r = score(pipe, q, il)
                 else:
